@@ -1,4 +1,6 @@
 """C09 — try/except/else/finally and with: which clause's code lands in which field, for every raise point at once."""
+CANON = True
+
 import ast
 
 from .. import compq, idflow, placement, pyq
